@@ -661,7 +661,12 @@ func c10stuck(a []string) string {
 //
 //	ended by cancelling its context once the party has handed over its first-round messages), then Stop it once.
 //	=> sub=<subscriptions obtained>,unsub=<released>,live=<still registered for the session id>
-func c9rerun(a []string) string { return c10cached("rerun", c9rerunRun, a) }
+func c9rerun(a []string) string {
+	if c9RegistriesUnsafe.Load() {
+		return c9skipped
+	}
+	return c10cached("rerun", c9rerunRun, a)
+}
 
 func c9rerunRun(a []string) string {
 	kind, n := a[0], int(u64(a[1]))
